@@ -15,6 +15,15 @@ func newNode(astNode schema.ASTNode) Node {
 		return newAny(astNode)
 	}
 
+	// An `or` rule decides whatever kind of value the example is: the object,
+	// array or null it is written next to is only one of the alternatives.
+	switch astNode.TokenType {
+	case schema.TokenTypeArray, schema.TokenTypeObject, schema.TokenTypeNull:
+		if astNode.Rules.Has("or") {
+			return newOr(astNode)
+		}
+	}
+
 	switch astNode.TokenType {
 	case schema.TokenTypeNumber, schema.TokenTypeString, schema.TokenTypeBoolean:
 		return newPrimitive(astNode)
